@@ -1,5 +1,6 @@
 import JivaVerif.Lemmas.InVol
 import JivaVerif.Lemmas.CtlRf
+import JivaVerif.Model.Replica
 /-!
 # C19 — a clone replica holds exactly the source snapshot and serves only when done
 
@@ -90,6 +91,34 @@ theorem c19_later_history_irrelevant (d e : DD β) (hd : WF d) (he : WF e) (k u 
   intro j _ hj
   rw [hf j hj]
   exact ⟨rfl, fun _ => rfl⟩
+
+/-! ### the counter handed to the clone -/
+
+/-- one recorded counter per snapshot name -/
+def RecsWF (r : Rep) : Prop := r.recs.length = r.names.length
+
+/-- every request keeps the recorded counters aligned with the chain, so the counter the clone is
+    given (`recs[k-1]` for the snapshot at index `k`) is always an actual recorded value — the default
+    of the model's `getD` is never used -/
+theorem c19_recs_aligned_step (r : Rep) (h : RecsWF r) (op : RepOp) : RecsWF (r.step op).1 := by
+  unfold RecsWF at *
+  cases op <;> simp only [Rep.step] <;> (repeat' split) <;>
+    simp_all [Rep.bumpRecs, List.length_take, List.length_eraseIdx, List.length_set] <;> (try omega)
+
+theorem c19_recs_aligned (ops : List RepOp) : ∀ r : Rep, RecsWF r → RecsWF (r.run ops) := by
+  induction ops with
+  | nil => intro r h; exact h
+  | cons op ops ih => intro r h; exact ih _ (c19_recs_aligned_step r h op)
+
+/-- the counter recorded for a snapshot is the replica's counter at the moment the snapshot was taken -/
+theorem c19_recorded_at_snapshot (r : Rep) (n : String) (u : Bool)
+    (hok : (r.step (.snap n u)).2 = .ok) :
+    (r.step (.snap n u)).1.recs.getLast? = some r.rev ∧ (r.step (.snap n u)).1.names.getLast? = some n := by
+  simp only [Rep.step] at hok ⊢
+  repeat' split at hok
+  all_goals first | cases hok | skip
+  all_goals (repeat' split)
+  all_goals simp_all
 
 /-! ### the new volume's controller -/
 
